@@ -8,8 +8,25 @@ from . import core, pcapfmt
 from .past import Renderer
 
 
-def run_bin(args, stdin=b"", timeout=20, env=None, cwd=None):
-    """returns dict(rc, out, err, how) - how is 'exit', 'signal' or 'timeout'"""
+import threading
+_RETRY_LOCK = threading.Lock()
+
+
+def run_bin(args, stdin=b"", timeout=20, env=None, cwd=None, retry_if=None):
+    """returns dict(rc, out, err, how) - how is 'exit', 'signal', 'panic' or 'timeout'.
+    A deadline miss is never reported on the strength of one attempt on a busy machine: the run is repeated, one
+    at a time, with a deadline six times as long (at least 60 s) - unless retry_if(result) says the first attempt
+    already shows the program itself is what runs long."""
+    r = _run_bin(args, stdin, timeout, env, cwd)
+    if r["how"] == "timeout" and (retry_if is None or retry_if(r)):
+        with _RETRY_LOCK:
+            r2 = _run_bin(args, stdin, max(60, 6 * timeout), env, cwd)
+        r2["retried"] = True
+        return r2
+    return r
+
+
+def _run_bin(args, stdin=b"", timeout=20, env=None, cwd=None):
     e = dict(os.environ)
     e.pop("P2SH_VERIF_REPL", None)
     if env:
